@@ -252,6 +252,71 @@ def run(ctx, rep):
     rep.ob("R16.2", "ThreadPoolServer._drop_connection: untracks the descriptor and closes that connection", okdd,
            "del self.fd_to_conn[fd]; conn.close()" if okdd else "_drop_connection no longer (untracks fd, closes conn)", fdc.loc)
 
+    # poll results: an event reporting readable data and no error condition goes to a worker, one reporting an error/hang-up
+    # condition is dropped - for every combination of flag letters the poll wrapper can produce for the registered mask
+    from .. import miniinterp as MIp
+    fhp = ctx.func(SRV + ".ThreadPoolServer._handle_poll_result")
+    rep.analysed(fhp)
+    pp = ctx.repo.classes.get("rpyc.lib.compat.PollingPoll")
+    letters = {}
+    reg = {}
+    if pp is not None and "poll" in pp.methods and "register" in pp.methods:
+        for n in A.walk(pp.methods["poll"].node):
+            if isinstance(n, ast.If) and isinstance(n.test, ast.BinOp) and isinstance(n.test.op, ast.BitAnd):
+                for st_ in n.body:
+                    if isinstance(st_, ast.AugAssign) and isinstance(st_.value, ast.Constant) and isinstance(st_.value.value, str):
+                        letters[st_.value.value] = {x.attr if isinstance(x, ast.Attribute) else x.id for x in ast.walk(n.test.right)
+                                                    if isinstance(x, (ast.Attribute, ast.Name)) and (
+                                                        x.attr if isinstance(x, ast.Attribute) else x.id).startswith("POLL")}
+        for n in A.walk(pp.methods["register"].node):
+            if isinstance(n, ast.If) and isinstance(n.test, ast.Compare) and isinstance(n.test.left, ast.Constant):
+                fl = set()
+                for st_ in n.body:
+                    if isinstance(st_, ast.AugAssign):
+                        fl |= {x.attr if isinstance(x, ast.Attribute) else x.id for x in ast.walk(st_.value)
+                               if isinstance(x, (ast.Attribute, ast.Name)) and (x.attr if isinstance(x, ast.Attribute) else x.id).startswith("POLL")}
+                reg[n.test.left.value] = fl
+    modes = set()
+    for m_ in ctx.cls(SRV + ".ThreadPoolServer").methods.values():
+        for c_ in A.calls(m_.node):
+            if isinstance(c_.func, ast.Attribute) and c_.func.attr in ("register", "modify") and len(c_.args) == 2:
+                mv = ctx.try_fold(c_.args[1])
+                if isinstance(mv, str):
+                    modes.add(mv)
+    rep.floor("R16.2", "flag letters the poll wrapper can report", len(letters), 4)
+    rep.floor("R16.2", "poll registrations of client descriptors", len(modes), 1)
+    always = {"POLLERR", "POLLHUP", "POLLNVAL"}
+    requested = set(always)
+    for mode_ in modes:
+        for ch in mode_:
+            requested |= reg.get(ch, set())
+    producible = sorted(ch for ch, fl in letters.items() if fl & requested)
+    bad_p = []
+    n_ev = 0
+    try:
+        import itertools as _it
+        for k_ in range(1, len(producible) + 1):
+            for combo in _it.combinations(producible, k_):
+                evt = "".join(combo)
+                err = any(ch in evt for ch in "ehn")
+                if not err and "r" not in evt:
+                    continue          # nothing to read and no error: either treatment is harmless
+                n_ev += 1
+                dropped, queued = [], []
+                st_ = {}
+                MIp.call_method(fhp.node, st_, [[(7, evt)]], {"__calls__": {
+                    "self._remove_from_inactive_connection": lambda fd: None, "self._drop_connection": dropped.append,
+                    "self._active_connection_queue.put": queued.append, "self._add_inactive_connection": lambda fd: None}})
+                if err and (dropped != [7] or queued):
+                    bad_p.append("event %r (error/hang-up condition): dropped %s, queued %s" % (evt, dropped, queued))
+                if not err and (queued != [7] or dropped):
+                    bad_p.append("event %r (readable, no error): dropped %s, queued %s - requests already delivered by a client "
+                                 "that then closed are discarded" % (evt, dropped, queued))
+        rep.ob("R16.2", "ThreadPoolServer._handle_poll_result: readable events are served, error events dropped", not bad_p,
+               "%d producible events over the letters %s" % (n_ev, producible) if not bad_p else "; ".join(bad_p[:3]), fhp.loc, kind="table")
+    except (AnalysisError, MIp.Raised) as e_:
+        rep.undecided("R16.2", "_handle_poll_result", str(e_))
+
     # the hand-off queue between the polling thread and the workers is unbounded: the workers are its only consumers and they
     # also put() into it (re-queueing a descriptor), so a bounded queue blocks every worker in put() once enough clients are busy
     qv = K.init_field_ctor(ctx, SRV + ".ThreadPoolServer", "_active_connection_queue")
